@@ -61,3 +61,56 @@ def run_real(kind: str, nthreads: int, nitems: int, size: int, remote_execmodel=
                 "threads": nthreads, "items": nitems, "size": size}
     finally:
         group.terminate(timeout=3)
+
+
+REMOTE_SENDERS = """
+import struct
+em = channel.gateway.execmodel
+n, nitems, size = channel.receive()
+chans = [channel.gateway.newchannel() for k in range(n)]
+for c in chans:
+    channel.send(c)
+def sender(k, c):
+    for i in range(nitems):
+        c.send(struct.pack('!i', k * 1000 + i + 1) + bytes([k + 65]) * (size - 4))
+for k, c in enumerate(chans):
+    em.start(sender, (k, c))          # threads or greenlets, whatever the worker's execmodel provides
+channel.receive()
+"""
+
+
+def run_remote_senders(host_execmodel: str, nsenders: int, nitems: int, size: int):
+    """the WORKER sends big frames from several threads / greenlets at once over a socket connection; the worker is a socket
+    server hosted by a gateway of the given execmodel (so with host_execmodel="gevent" the senders are greenlets)"""
+    group = execnet.Group()
+    try:
+        group.makegateway(f"popen//execmodel={host_execmodel}//id=m")
+        gw = group.makegateway("socket//installvia=m")
+        ch = gw.remote_exec(REMOTE_SENDERS)
+        ch.send((nsenders, nitems, size))
+        chans = [ch.receive(30) for _ in range(nsenders)]
+        import time
+
+        time.sleep(1.0)  # let the socket buffers fill up: every sender is then stopped in the middle of a frame at least once
+        sent = [[k * 1000 + i + 1 for i in range(nitems)] for k in range(nsenders)]
+        got = [[] for _ in range(nsenders)]
+        errors = []
+        alive = True
+        for k, c in enumerate(chans):
+            for _ in range(nitems):
+                try:
+                    x = c.receive(60)
+                    tok = struct.unpack("!i", x[:4])[0]
+                    got[k].append(tok if (len(x) == size and x[4:5] * (size - 4) == x[4:]) else -tok)
+                except Exception as e:  # noqa: BLE001
+                    errors.append("recv:" + repr(e)[:100])
+                    alive = False
+                    break
+        alive = alive and gw.hasreceiver()
+        return {"kind": "real", "transport": f"socket, senders in a {host_execmodel} worker", "sent": sent, "got": got, "alive": bool(alive),
+                "errors": errors[:3], "threads": nsenders, "items": nitems, "size": size}
+    except Exception as e:  # noqa: BLE001
+        return {"kind": "real", "transport": f"socket, senders in a {host_execmodel} worker", "sent": [[1]], "got": [[]], "alive": False,
+                "errors": [repr(e)[:100]], "threads": nsenders, "items": nitems, "size": size}
+    finally:
+        group.terminate(timeout=3)
